@@ -958,7 +958,12 @@ class Machine:
         st.frames.append(nf)
 
     def _display_body(self, tyname):
-        return self.display_impls.get(norm(tyname))
+        t = norm(tyname)
+        while t.startswith("&"):
+            t = t[1:].strip()
+            if t.startswith("mut "):
+                t = t[4:]
+        return self.display_impls.get(t)
 
     def _model(self, st, fr, name, args, targs, t):
         if name == "std::string::String::new":
